@@ -285,12 +285,16 @@ def written_units(ctx):
 
         d = IOData(atnums=np.array([8, 1]), atcoords=np.array([[0.25, -1.5, 2.0], [1.0, 0.5, -0.75]]) * ANG, charge=0, spinpol=0)
         p = str(tmp / f"{prog}.inp")
-        write_input(d, p, prog)
-        nums = [float(x) for x in re.findall(float_re, open(p).read())]
-        found = any(abs(nums[i] - 0.25) < 1e-6 and abs(nums[i + 1] + 1.5) < 1e-6 and abs(nums[i + 2] - 2.0) < 1e-6 for i in range(len(nums) - 2))
-        ctx.outcome("written-units", f"input-{prog}:angstrom" if found else f"input-{prog}:WRONG")
-        if not found:
-            ctx.violation("units", f"written:input-{prog}:coordinates-not-in-angstrom", {"program": prog}, "coordinates of the generated input are not in angstrom")
+        for attempt in (1, 2, 3):  # the same object written repeatedly: every file in angstrom, the object still in bohr
+            write_input(d, p, prog)
+            nums = [float(x) for x in re.findall(float_re, open(p).read())]
+            found = any(abs(nums[i] - 0.25) < 1e-6 and abs(nums[i + 1] + 1.5) < 1e-6 and abs(nums[i + 2] - 2.0) < 1e-6 for i in range(len(nums) - 2))
+            ctx.outcome("written-units", f"input-{prog}:angstrom" if found else f"input-{prog}:WRONG")
+            if not found:
+                ctx.violation("units", f"written:input-{prog}:coordinates-not-in-angstrom:write{attempt}", {"program": prog, "write": attempt}, f"coordinates of generated input number {attempt} of the same object are not in angstrom")
+                break
+        if abs(d.atcoords[0, 0] - 0.25 * ANG) > 1e-12:
+            ctx.violation("units", f"written:input-{prog}:object-no-longer-in-bohr", {"program": prog}, f"atcoords[0,0] = {d.atcoords[0, 0]!r} after writing inputs, was {0.25 * ANG!r} bohr")
 
 
 def constants(ctx):
